@@ -1,6 +1,46 @@
 -------------------------------- MODULE JC09 --------------------------------
-(* C09 — contract of the recorded events of this property (stub).           *)
-EXTENDS BigNat
+(* C09 — exponentiation, multi-exponentiation and linear combination.       *)
+(*  pow:     b^(e mod 2^kk) mod m, canonical representative                 *)
+(*  mexp:    product over i of bs[i]^(es[i] mod 2^kk) mod m                 *)
+(*  lincomb: sum over i of xs[i]*ys[i] mod m                                *)
+(* b, bs, xs, ys are the integers handed to `new` (not necessarily reduced).*)
+EXTENDS BigNat, Sequences
 
-JudgeC09(e, rg) == FALSE
+PowSpec9(b, e, k, m) == ModPow(Mod(b, m), Mod2k(e, k), m)      \* = 1 mod m for k = 0 (0 for m = 1)
+
+JudgePow9(e) ==
+  LET want == PowSpec9(e.b, e.e, e.kk, e.m)
+  IN /\ e.k = "ok"
+     /\ e.kk <= e.eb                                           \* recorder stays inside the documented domain
+     /\ e.rt = want
+     /\ e.mf = Mod(Mul(want, Pow2(e.bits)), e.m)
+     /\ Lt(e.mf, e.m)
+
+RECURSIVE ProdPow9(_, _, _, _, _)
+ProdPow9(bs, es, k, m, i) ==
+  IF i > Len(bs) THEN Mod(One, m)
+  ELSE Mod(Mul(PowSpec9(bs[i], es[i], k, m), ProdPow9(bs, es, k, m, i + 1)), m)
+
+JudgeMexp9(e) == /\ e.k = "ok"
+                 /\ Len(e.bs) = Len(e.es)
+                 /\ e.rt = ProdPow9(e.bs, e.es, e.kk, e.m, 1)
+
+RECURSIVE SumProd9(_, _, _, _)
+SumProd9(xs, ys, m, i) ==
+  IF i > Len(xs) THEN Zero
+  ELSE Mod(Add(Mul(Mod(xs[i], m), Mod(ys[i], m)), SumProd9(xs, ys, m, i + 1)), m)
+
+JudgeLincomb9(e) ==
+  LET want == SumProd9(e.xs, e.ys, e.m, 1)
+  IN /\ e.k = "ok"
+     /\ Len(e.xs) = Len(e.ys) /\ Len(e.xs) >= 1
+     /\ e.rt = want
+     /\ e.mf = Mod(Mul(want, Pow2(e.bits)), e.m)
+     /\ Lt(e.mf, e.m)
+
+JudgeC09(e, rg) ==
+  CASE e.op = "pow"     -> JudgePow9(e)
+    [] e.op = "mexp"    -> JudgeMexp9(e)
+    [] e.op = "lincomb" -> JudgeLincomb9(e)
+    [] OTHER -> FALSE
 =============================================================================
